@@ -40,10 +40,28 @@ RULE = ('entry points pmap / piter_fn / piter / piter_multiplex / MultiplexItera
 def gen_cases(ctx):
   yield from ctx.corpus()
   rng = ctx.rng
-  n = 700 if ctx.quick else 15000
+  n = 6000 if ctx.quick else 40000
   for i in range(n):
     api = 'piter2' if i % 12 == 11 else None
     case = lp.gen_case(rng, quick=ctx.quick, api=api)
+    if i % 10 == 3:
+      # directed at the hazards: more tasks than workers, full queue (more outputs than the buffer), then an
+      # early stop or a late failure -- tasks that start late, producers parked in put during maybe_stop/shutdown
+      case = lp.gen_case(rng, quick=ctx.quick, api=rng.choice(['multiplex', 'piter_multiplex', 'piter_fn']))
+      case['fn'] = rng.choice(['dup', 'ident'])
+      case['cap'] = rng.choice([1, 2])
+      case['workers'] = 1 if case['api'] != 'multiplex' else case['workers']
+      if case['api'] != 'piter_fn':
+        case['inputs'] = [[100 * j + k + 1 for k in range(rng.randrange(2, 5))] for j in range(rng.randrange(2, 4))]
+        case['par'] = rng.randrange(1, 3)
+      else:
+        case['inputs'] = [[k + 1 for k in range(rng.randrange(2, 5))]]
+      allv = [v for it in case['inputs'] for v in it]
+      if rng.random() < 0.5:
+        case['num_steps'], case['fail_on'] = rng.randrange(0, 4), None
+      else:
+        case['num_steps'], case['fail_on'] = None, rng.choice(allv[-3:])
+      ctx.count('directed', 'late-task/full-queue')
     ctx.count('api', case['api'])
     ctx.count('par', case['par'])
     ctx.count('cap', case['cap'])
@@ -113,7 +131,7 @@ def neighbours(case, rng):
 
 def extra(ctx):
   """Stage 2: real ThreadPoolExecutor, no shim (in a child process with a deadline)."""
-  n = 150 if ctx.quick else 2500
+  n = 500 if ctx.quick else 4000
   cases = []
   for i in range(n):
     case = lp.gen_case(ctx.rng, quick=ctx.quick, api='piter2' if i % 10 == 9 else None)
@@ -130,7 +148,7 @@ def extra(ctx):
   cases.append(dict(api='piter2', par=2, cap=0, workers=0, inputs=[[10 * i + 1, 10 * i + 2] for i in range(40)],
                     fn='inc', fail_on=None, num_steps=3, max_batch=0, sched=None, stage='real_threads', jitter=2))
   n = len(cases)
-  obs = lr.run_cases(cases, deadline=40.0 if ctx.quick else 600.0)
+  obs = lr.run_cases(cases, deadline=45.0 if ctx.quick else 700.0)
   infra = sum(1 for o in obs if o.get('infra'))
   if infra:
     ctx.notes.append(f'stage 2: {infra} of {n} real-thread cases not run (child deadline / crash): {obs[-1].get("err")}')
